@@ -1,9 +1,10 @@
 #!/bin/bash
-# Build what the checks need from files on disk only (offline). The Verus checks need nothing built;
-# the replay driver is (re)built on demand against the current /repo tree.
+# Build what the checks need from files on disk only (offline): the replay driver (linked against the current /repo
+# tree; later runs rebuild it incrementally when /repo changes). The Verus checks themselves need nothing built.
 set -e
 cd "$(dirname "$0")"
 mkdir -p out evidence
-python3 -c "import vt.cli" 
+python3 -c "import vt.cli"
 verus --version >/dev/null
+( cd replay && CARGO_NET_OFFLINE=true CARGO_TARGET_DIR=/verif/out/replay-target RUSTFLAGS="--cfg simfony_verif" cargo build --release --offline 2>&1 | tail -2 )
 echo setup ok
